@@ -347,6 +347,74 @@ pub fn check_table(opt: &Topt, entries: &[VEntry], nkeys: usize, all_bounds: boo
 	Ok(None)
 }
 
+/// A table with `n` entries (one version per key, sequential keys): every stored key must be found
+/// by a point lookup and by a seek, keys between the stored ones must not be, and a forward scan
+/// must return all of them. Covers boundaries that only tables with thousands of entries cross
+/// (many data blocks, several index partitions, filter sizing).
+pub fn check_large_table(opt: &Topt, n: usize) -> Result<Option<(String, String)>, String> {
+	let entries: Vec<VEntry> = (0..n)
+		.map(|i| VEntry {
+			user_key: format!("k{:07}", i * 2).into_bytes(),
+			seq: 5,
+			kind: 1,
+			ts: 0,
+			value: format!("v{i}").into_bytes(),
+		})
+		.collect();
+	let opts = opt.options();
+	let bytes = match verif_write_table(&opts, 7, 0, &entries) {
+		Ok(b) => b,
+		Err(e) => return Ok(Some(("write-error".into(), format!("TableWriter ({n} entries): {e}")))),
+	};
+	let table = match VTable::open(&opts, 7, bytes) {
+		Ok(t) => t,
+		Err(e) => return Ok(Some(("open-error".into(), format!("Table::new ({n} entries): {e}")))),
+	};
+	let unb = Bound::Unbounded;
+	let mut it = table.iter(&unb, &unb).map_err(|e| format!("{e}"))?;
+	let mut ok = it.seek_first().map_err(|e| format!("{e}"))?;
+	let mut i = 0usize;
+	while ok {
+		let e = it.entry().map_err(|e| format!("{e}"))?;
+		if i >= n || e != entries[i] {
+			return Ok(Some(("forward".into(), format!("table of {n} entries: forward scan position {i} returned {}", e_str(&e)))));
+		}
+		i += 1;
+		ok = it.next().map_err(|e| format!("{e}"))?;
+	}
+	if i != n {
+		return Ok(Some(("forward".into(), format!("table of {n} entries: forward scan returned {i} entries"))));
+	}
+	for (i, e) in entries.iter().enumerate() {
+		for snap in [5u64, 9] {
+			match table.get(&e.user_key, snap) {
+				Err(er) => return Ok(Some(("get-error".into(), format!("table of {n} entries: get(entry {i}, {snap}): {er}")))),
+				Ok(Some(g)) if &g == e => {}
+				Ok(g) => {
+					let class = if g.is_none() { "get-hides-present" } else { "get-wrong" };
+					return Ok(Some((class.into(), format!("table of {n} sequential entries: get({}, {snap}) -> {:?}, expected entry {i}", hex(&e.user_key), g.as_ref().map(e_str)))));
+				}
+			}
+		}
+		if table.get(&e.user_key, 4).map_err(|e| format!("{e}"))?.is_some() {
+			return Ok(Some(("get-wrong".into(), format!("table of {n} entries: get({}, 4) returned a version newer than the snapshot", hex(&e.user_key)))));
+		}
+		// the odd key after it is absent
+		let absent = format!("k{:07}", i * 2 + 1).into_bytes();
+		if let Some(g) = table.get(&absent, 9).map_err(|e| format!("{e}"))? {
+			return Ok(Some(("get-wrong".into(), format!("table of {n} entries: get of absent key {} returned {}", hex(&absent), e_str(&g)))));
+		}
+		if i % 97 == 0 || i + 2 >= n || (i % 16384) < 2 || (i % 16384) > 16381 {
+			let ok = it.seek(&absent, 9).map_err(|e| format!("{e}"))?;
+			let got = if ok { Some(it.entry().map_err(|e| format!("{e}"))?) } else { None };
+			if got.as_ref() != entries.get(i + 1) {
+				return Ok(Some(("seek".into(), format!("table of {n} entries: seek({}) -> {:?}, expected entry {}", hex(&absent), got.as_ref().map(e_str), i + 1))));
+			}
+		}
+	}
+	Ok(None)
+}
+
 pub fn check(tier: Tier) -> i32 {
 	let mut report = Report::new("C13", tier, "model_checking");
 	let budget = Budget::new(if tier == Tier::Quick { 45.0 } else { 1100.0 });
@@ -384,6 +452,38 @@ pub fn check(tier: Tier) -> i32 {
 			*per_class.entry(class.clone()).or_default() += 1;
 			first_of_class.entry(class).or_insert((format!("[{}] table {} => {}", o.name(), list_str(&u), text), json!({"engine": "c13", "opt": o.name(), "keys": 2, "seqs": 2, "subset": [0, 1, 2, 3], "all_bounds": false})));
 		}
+	}
+	// large tables (sizes around powers of two and beyond): a handful of option sets
+	let mut large_done = vec![];
+	{
+		let sizes: Vec<usize> = if tier == Tier::Quick { vec![1023, 1025, 16383, 16385, 33000] } else { vec![255, 257, 1023, 1025, 4097, 16383, 16384, 16385, 32769, 65537, 140000] };
+		let lopts: Vec<Topt> = [(4096usize, 16usize, 16384usize, false, true), (64, 2, 64, false, true), (4096, 16, 16384, true, true), (256, 16, 1, false, false)]
+			.iter()
+			.map(|(b, r, p, s, f)| Topt { block_size: *b, restart: *r, partition: *p, snappy: *s, filter: *f })
+			.collect();
+		let cases: Vec<(Topt, usize)> = lopts.iter().flat_map(|o| sizes.iter().map(move |n| (o.clone(), *n))).collect();
+		let res: Vec<(usize, Option<(String, String)>)> = cases
+			.par_iter()
+			.enumerate()
+			.map(|(i, (o, n))| {
+				let r = match crate::util::guarded(|| check_large_table(o, *n)) {
+					Ok(Ok(f)) => f,
+					Ok(Err(e)) => Some(("check-error".into(), e)),
+					Err(p) => Some((format!("panic:{}", crate::props::norm_msg(&p)), p)),
+				};
+				(i, r)
+			})
+			.collect();
+		for (i, r) in res {
+			evaluations += 1;
+			transitions += cases[i].1 as u64;
+			nontrivial += 1;
+			if let Some((class, text)) = r {
+				*per_class.entry(class.clone()).or_default() += 1;
+				first_of_class.entry(class).or_insert((format!("[{}] {}", cases[i].0.name(), text), json!({"engine": "c13-large", "opt": cases[i].0.name(), "n": cases[i].1})));
+			}
+		}
+		large_done.push(format!("large tables: sizes {:?} x {} option sets", sizes, lopts.len()));
 	}
 	'outer: for (nkeys, nseqs, maxsub, all_bounds) in &plans {
 		let u = universe(*nkeys, *nseqs);
@@ -448,6 +548,7 @@ pub fn check(tier: Tier) -> i32 {
 	report.set("distinct_nontrivial", json!(nontrivial));
 	report.set("rule", json!("tables = every non-empty subset (size <= bound) of the universe {7 user keys incl. 0x00/0xff runs and prefixes} x {seqs 9,5,1}, kinds cycle Set/Delete/SoftDelete/Replace, values empty / 3 B / pointer-shaped; x 108 option sets (block 20/64/4096 x restart 1/2/16 x partition 1/64/16384 x snappy x bloom); per table: forward, backward, seek(+next/prev) to every (key,seq) target incl. absent keys, get for every key x snapshot 0..10, all bound pairs, shortcuts; non-trivial = tables with >= 2 entries; states = option sets"));
 	report.set("samples", json!(["[bs20-ri1-ps1-raw-bloom] a@9k2 a@5k0 a\\xff@9k6 \\xff@5k2", "[bs64-ri2-ps64-snappy-nofilter] a\\x00@9k2 a\\xff\\xff@5k2 ab@9k1"]));
+	completed.extend(large_done);
 	report.set("bounds_completed", json!(completed));
 	report.set("exhaustive", json!(all_complete));
 	report.set("failures_per_class", json!(per_class));
@@ -458,6 +559,35 @@ pub fn check(tier: Tier) -> i32 {
 
 pub fn replay(r: &J) -> i32 {
 	let name = r["opt"].as_str().unwrap_or("");
+	if r["engine"] == "c13-large" {
+		let n = r["n"].as_u64().unwrap_or(0) as usize;
+		let parts: Vec<&str> = name.split('-').collect();
+		let num = |s: &str| s.trim_start_matches(|c: char| c.is_ascii_alphabetic()).parse::<usize>().unwrap_or(0);
+		if parts.len() != 5 {
+			eprintln!("machinery: bad option set name {name}");
+			return 2;
+		}
+		let opt = Topt { block_size: num(parts[0]), restart: num(parts[1]), partition: num(parts[2]), snappy: parts[3] == "snappy", filter: parts[4] == "bloom" };
+		println!("replaying C13 large table [{}] n={n}", opt.name());
+		return match crate::util::guarded(|| check_large_table(&opt, n)) {
+			Ok(Ok(None)) => {
+				println!("replay passed: no violation");
+				0
+			}
+			Ok(Ok(Some((c, t)))) => {
+				println!("VIOLATION property=C13 replay=<this file>\n  class={c} {t}");
+				1
+			}
+			Ok(Err(e)) => {
+				eprintln!("machinery: {e}");
+				2
+			}
+			Err(p) => {
+				println!("VIOLATION property=C13 replay=<this file>\n  class=panic {p}");
+				1
+			}
+		};
+	}
 	let mut all = topts(20);
 	for bs in [1usize, 4, 8] {
 		all.push(Topt {
